@@ -16,6 +16,7 @@ import (
 	"errors"
 	"fmt"
 	"io"
+	"sort"
 	"strings"
 	"sync"
 	"testing/iotest"
@@ -72,6 +73,10 @@ type env struct {
 	Bytes  []byte
 	Blob   bool // payload describes a blob
 	Family string
+	// Truth, when set, is what the payload says BY CONSTRUCTION (hand label of a hand-made payload, shapes.go);
+	// the oracle then never parses the payload bytes itself. Sub is appended to the violation key (":<shape>").
+	Truth *truth
+	Sub   string
 
 	once sync.Once
 	ref  *refsig.Result
@@ -202,7 +207,67 @@ type payloadT struct {
 	TargetArtifact ocispec.Descriptor `json:"targetArtifact"`
 }
 
+// truth is the hand label of a hand-made payload: the target descriptors a conforming reader may take from it
+// (several where JSON itself is ambiguous: repeated member names, member names in another letter case); none at
+// all when the content is not one JSON document with a target descriptor, i.e. not a Notary payload.
+type truth struct {
+	Readings []ocispec.Descriptor `json:"readings"`
+}
+
+// bindingWhy compares one reading of the signed target descriptor with what was presented and required.
+func bindingWhy(t ocispec.Descriptor, presented ocispec.Descriptor, blobContent []byte, isBlob bool, statedMT string, required map[string]string, h crypto.Hash) string {
+	if isBlob {
+		want := blobDesc(blobContent, statedMT, h)
+		if t.Digest != want.Digest {
+			return "blob-digest-mismatch"
+		}
+		if t.Size != want.Size {
+			return "blob-size-mismatch"
+		}
+		if statedMT != "" && t.MediaType != statedMT {
+			return "blob-mediatype-mismatch"
+		}
+	} else {
+		if t.Digest != presented.Digest {
+			return "descriptor-digest-mismatch"
+		}
+		if t.Size != presented.Size {
+			return "descriptor-size-mismatch"
+		}
+		if t.MediaType != presented.MediaType {
+			return "descriptor-mediatype-mismatch"
+		}
+	}
+	for _, k := range sortedKeys(required) {
+		if got, ok := t.Annotations[k]; !ok || got != required[k] {
+			return "required-metadata-not-signed"
+		}
+	}
+	return ""
+}
+
+func sortedKeys(m map[string]string) []string {
+	ks := make([]string, 0, len(m))
+	for k := range m {
+		ks = append(ks, k)
+	}
+	sort.Strings(ks)
+	return ks
+}
+
+func cloneMap(m map[string]string) map[string]string {
+	if m == nil {
+		return nil
+	}
+	c := make(map[string]string, len(m))
+	for k, v := range m {
+		c[k] = v
+	}
+	return c
+}
+
 // judge is called when verification SUCCEEDED; it returns "" or the reason why that success violates C01.
+// required is the harness's own pristine copy of what the caller required (never the map object handed to the code).
 func judge(e *env, outcome *notation.VerificationOutcome, presented ocispec.Descriptor, blobContent []byte, isBlob bool, statedMT string, required map[string]string) string {
 	ref, err := e.refcheck()
 	if err != nil {
@@ -211,36 +276,32 @@ func judge(e *env, outcome *notation.VerificationOutcome, presented ocispec.Desc
 	if ref.ContentType != forge.PayloadType {
 		return "wrong-payload-content-type"
 	}
-	var p payloadT
-	if err := json.Unmarshal(ref.Payload, &p); err != nil {
-		return "payload-not-json"
-	}
-	if isBlob {
-		want := blobDesc(blobContent, statedMT, ref.Hash)
-		if p.TargetArtifact.Digest != want.Digest {
-			return "blob-digest-mismatch"
+	var readings []ocispec.Descriptor
+	if e.Truth != nil {
+		if len(e.Truth.Readings) == 0 {
+			return "payload-not-a-notary-payload"
 		}
-		if p.TargetArtifact.Size != want.Size {
-			return "blob-size-mismatch"
-		}
-		if statedMT != "" && p.TargetArtifact.MediaType != statedMT {
-			return "blob-mediatype-mismatch"
-		}
+		readings = e.Truth.Readings
 	} else {
-		if p.TargetArtifact.Digest != presented.Digest {
-			return "descriptor-digest-mismatch"
+		var p payloadT
+		if err := json.Unmarshal(ref.Payload, &p); err != nil {
+			return "payload-not-json"
 		}
-		if p.TargetArtifact.Size != presented.Size {
-			return "descriptor-size-mismatch"
+		readings = []ocispec.Descriptor{p.TargetArtifact}
+	}
+	why := ""
+	for i, t := range readings {
+		w := bindingWhy(t, presented, blobContent, isBlob, statedMT, required, ref.Hash)
+		if w == "" {
+			why = ""
+			break
 		}
-		if p.TargetArtifact.MediaType != presented.MediaType {
-			return "descriptor-mediatype-mismatch"
+		if i == 0 {
+			why = w
 		}
 	}
-	for k, v := range required {
-		if got, ok := p.TargetArtifact.Annotations[k]; !ok || got != v {
-			return "required-metadata-not-signed"
-		}
+	if why != "" {
+		return why
 	}
 	if outcome == nil {
 		return "nil-outcome-on-success"
@@ -262,11 +323,38 @@ func firstWords(s string) string {
 	return strings.Join(f, "_")
 }
 
+type replayEnv struct {
+	Label    string `json:"label"`
+	Format   string `json:"format"`
+	Envelope string `json:"envelope_b64"`
+	Truth    *truth `json:"truth,omitempty"`
+}
+
+func (e *env) replay() replayEnv {
+	return replayEnv{Label: e.Label, Format: e.Format, Envelope: base64.StdEncoding.EncodeToString(e.Bytes), Truth: e.Truth}
+}
+
+func (x replayEnv) env(family string) *env {
+	b, _ := base64.StdEncoding.DecodeString(x.Envelope)
+	return &env{Label: x.Label, Format: x.Format, Bytes: b, Family: family, Truth: x.Truth}
+}
+
+// replayCall is the earlier call of a two-call history.
+type replayCall struct {
+	Env      replayEnv          `json:"envelope"`
+	Desc     ocispec.Descriptor `json:"descriptor"`
+	Content  string             `json:"blob_content_b64,omitempty"`
+	StatedMT string             `json:"stated_media_type,omitempty"`
+	Required map[string]string  `json:"required"`
+}
+
 type replayCase struct {
 	Family   string             `json:"family"`
 	Label    string             `json:"label"`
+	Sub      string             `json:"sub,omitempty"`
 	Format   string             `json:"format"`
 	Envelope string             `json:"envelope_b64"`
+	Truth    *truth             `json:"truth,omitempty"`
 	Blob     bool               `json:"blob"`
 	Entry    string             `json:"entry"`
 	Desc     ocispec.Descriptor `json:"descriptor"`
@@ -277,6 +365,15 @@ type replayCase struct {
 	Store    int                `json:"store"`
 	PM       bool               `json:"plugin_manager"`
 	Reader   int                `json:"reader_shape"`
+	Unnamed  bool               `json:"global_blob_policy,omitempty"`   // blob: no trust policy name given (the global statement applies)
+	Direct   bool               `json:"direct_blob_verifier,omitempty"` // verifier.VerifyBlob with the caller's own descriptor generator
+	// two-call history on one fresh verifier: Prior is executed first; SameMap: the judged call hands in the very
+	// map object of the prior call (as the code left it) instead of a fresh map with the content of Required
+	Prior   *replayCall `json:"prior,omitempty"`
+	SameMap bool        `json:"same_map_object,omitempty"`
+	// notation.Verify over a repository listing these signatures in this order, Page per listing callback (0 = all)
+	List []replayEnv `json:"list,omitempty"`
+	Page int         `json:"page,omitempty"`
 }
 
 var ctx = context.Background()
@@ -291,13 +388,14 @@ func runOCI(r *hx.Run, w *world, e *env, presentedName string, presented ocispec
 		return "infra"
 	}
 	r.Eval(1)
-	outcome, verr := v.Verify(ctx, presented, e.Bytes, notation.VerifierVerifyOptions{ArtifactReference: "reg.io/r@" + presented.Digest.String(), SignatureMediaType: e.Format, UserMetadata: required})
+	// the code gets its own copy of the map (the caller's value); the oracle keeps the pristine one
+	outcome, verr := v.Verify(ctx, presented, e.Bytes, notation.VerifierVerifyOptions{ArtifactReference: "reg.io/r@" + presented.Digest.String(), SignatureMediaType: e.Format, UserMetadata: cloneMap(required)})
 	if verr != nil {
 		return "rejected"
 	}
 	if why := judge(e, outcome, presented, nil, false, "", required); why != "" {
-		r.Violation("oci/"+e.Family+"/"+why, fmt.Sprintf("Verify succeeded for envelope %s presented with %s required=%s level=%v store=%d pm=%v", e.Label, presentedName, vt.MapString(required), lv, sa, pm),
-			replayCase{Family: e.Family, Label: e.Label, Format: e.Format, Envelope: base64.StdEncoding.EncodeToString(e.Bytes), Entry: "verifier.Verify", Desc: presented, Required: required, Level: lv, Store: int(sa), PM: pm})
+		r.Violation("oci/"+e.Family+"/"+why+e.Sub, fmt.Sprintf("Verify succeeded for envelope %s presented with %s required=%s level=%v store=%d pm=%v", e.Label, presentedName, vt.MapString(required), lv, sa, pm),
+			replayCase{Family: e.Family, Label: e.Label, Sub: e.Sub, Truth: e.Truth, Format: e.Format, Envelope: base64.StdEncoding.EncodeToString(e.Bytes), Entry: "verifier.Verify", Desc: presented, Required: required, Level: lv, Store: int(sa), PM: pm})
 		return "violation"
 	}
 	return "accepted"
@@ -341,24 +439,46 @@ func shapedReader(content []byte, shape int) io.Reader {
 	return base
 }
 
+// blobCall is one blob verification: through notation.VerifyBlob (the library digests the reader) or, direct,
+// through the BlobVerifier itself with the caller's own descriptor generator (the caller states the media type
+// by what the generator returns).
+func blobCall(bv notation.BlobVerifier, e *env, content []byte, statedMT string, pass map[string]string, named, direct bool, shape int) (*notation.VerificationOutcome, error) {
+	bo := notation.BlobVerifierVerifyOptions{SignatureMediaType: e.Format, UserMetadata: pass}
+	if named {
+		bo.TrustPolicyName = "p"
+	}
+	if direct {
+		gen := func(alg digest.Algorithm) (ocispec.Descriptor, error) {
+			return ocispec.Descriptor{MediaType: statedMT, Digest: alg.FromBytes(content), Size: int64(len(content))}, nil
+		}
+		return bv.VerifyBlob(ctx, gen, e.Bytes, bo)
+	}
+	_, outcome, verr := notation.VerifyBlob(ctx, bv, shapedReader(content, shape), e.Bytes, notation.VerifyBlobOptions{ContentMediaType: statedMT, BlobVerifierVerifyOptions: bo})
+	return outcome, verr
+}
+
 func runBlob(r *hx.Run, w *world, e *env, content []byte, statedMT string, required map[string]string, lv vt.Level, sa storeAnswer, pm bool, named bool, shape int) string {
+	return runBlobVia(r, w, e, content, statedMT, required, lv, sa, pm, named, shape, false)
+}
+
+func runBlobVia(r *hx.Run, w *world, e *env, content []byte, statedMT string, required map[string]string, lv vt.Level, sa storeAnswer, pm bool, named bool, shape int, direct bool) string {
 	_, bv, err := newVerifier(w, lv, sa, pm)
 	if err != nil {
 		r.Infra("verifier construction failed for level %v: %v", lv, err)
 		return "infra"
 	}
 	r.Eval(1)
-	o := notation.VerifyBlobOptions{ContentMediaType: statedMT, BlobVerifierVerifyOptions: notation.BlobVerifierVerifyOptions{SignatureMediaType: e.Format, UserMetadata: required}}
-	if named {
-		o.TrustPolicyName = "p"
-	}
-	_, outcome, verr := notation.VerifyBlob(ctx, bv, shapedReader(content, shape), e.Bytes, o)
+	outcome, verr := blobCall(bv, e, content, statedMT, cloneMap(required), named, direct, shape)
 	if verr != nil {
 		return "rejected"
 	}
+	entry := "notation.VerifyBlob"
+	if direct {
+		entry = "verifier.VerifyBlob"
+	}
 	if why := judge(e, outcome, ocispec.Descriptor{}, content, true, statedMT, required); why != "" {
-		r.Violation("blob/"+e.Family+"/"+why, fmt.Sprintf("VerifyBlob succeeded for envelope %s presented with %d bytes (reader %s) mt=%q required=%s level=%v store=%d pm=%v", e.Label, len(content), readerShapes[shape%len(readerShapes)], statedMT, vt.MapString(required), lv, sa, pm),
-			replayCase{Reader: shape, Family: e.Family, Label: e.Label, Format: e.Format, Envelope: base64.StdEncoding.EncodeToString(e.Bytes), Blob: true, Entry: "notation.VerifyBlob", Content: base64.StdEncoding.EncodeToString(content), StatedMT: statedMT, Required: required, Level: lv, Store: int(sa), PM: pm})
+		r.Violation("blob/"+e.Family+"/"+why+e.Sub, fmt.Sprintf("%s succeeded for envelope %s presented with %d bytes (reader %s) mt=%q required=%s level=%v store=%d pm=%v", entry, e.Label, len(content), readerShapes[shape%len(readerShapes)], statedMT, vt.MapString(required), lv, sa, pm),
+			replayCase{Reader: shape, Direct: direct, Unnamed: !named, Family: e.Family, Label: e.Label, Sub: e.Sub, Truth: e.Truth, Format: e.Format, Envelope: base64.StdEncoding.EncodeToString(e.Bytes), Blob: true, Entry: entry, Content: base64.StdEncoding.EncodeToString(content), StatedMT: statedMT, Required: required, Level: lv, Store: int(sa), PM: pm})
 		return "violation"
 	}
 	return "accepted"
@@ -377,12 +497,25 @@ func main() {
 			r.Finish()
 		}
 		b, _ := base64.StdEncoding.DecodeString(c.Envelope)
-		e := &env{Label: c.Label, Format: c.Format, Bytes: b, Family: c.Family, Blob: c.Blob}
+		e := &env{Label: c.Label, Format: c.Format, Bytes: b, Family: c.Family, Blob: c.Blob, Truth: c.Truth, Sub: c.Sub}
 		var res string
-		if c.Blob {
+		switch {
+		case c.List != nil:
+			var list []*env
+			for _, x := range c.List {
+				list = append(list, x.env(c.Family))
+			}
+			res = runList(r, w, list, "replay", c.Desc, c.Required, c.Level, storeAnswer(c.Store), c.Page)
+		case c.Prior != nil:
 			content, _ := base64.StdEncoding.DecodeString(c.Content)
-			res = runBlob(r, w, e, content, c.StatedMT, c.Required, c.Level, storeAnswer(c.Store), c.PM, true, c.Reader)
-		} else {
+			pcontent, _ := base64.StdEncoding.DecodeString(c.Prior.Content)
+			res = runHistory(r, w, c.Blob, c.Level,
+				histCall{e: c.Prior.Env.env(c.Family), desc: c.Prior.Desc, content: pcontent, statedMT: c.Prior.StatedMT, required: c.Prior.Required},
+				histCall{e: e, desc: c.Desc, content: content, statedMT: c.StatedMT, required: c.Required}, c.SameMap)
+		case c.Blob:
+			content, _ := base64.StdEncoding.DecodeString(c.Content)
+			res = runBlobVia(r, w, e, content, c.StatedMT, c.Required, c.Level, storeAnswer(c.Store), c.PM, !c.Unnamed, c.Reader, c.Direct)
+		default:
 			res = runOCI(r, w, e, "replay", c.Desc, c.Required, c.Level, storeAnswer(c.Store), c.PM)
 		}
 		fmt.Println("replay result:", res)
@@ -640,6 +773,18 @@ func main() {
 			}
 		}, nil)
 		r.Extra["mutation_base_len_"+short(f)] = len(base)
+	}
+
+	// ---------- family (v): hand-made payload shapes; (vi) two-call histories; (vii) signature lists ----------
+	extra := &ctl{}
+	shapedFamily(r, w, fewLevels, extra)
+	historyFamily(r, w, []vt.Level{strictL, auditAllLog}, fewLevels, extra)
+	listFamily(r, w, fewLevels, []vt.Level{strictL, auditAllLog}, extra)
+	controls += extra.n
+	controlsOK += extra.ok
+	r.Extra["positive_controls_new_families"] = fmt.Sprintf("%d of %d", extra.ok, extra.n)
+	if extra.ok == 0 {
+		r.Infra("vacuous run: none of the %d positive controls of the shaped/history/list families accepted", extra.n)
 	}
 
 	r.Extra["positive_controls"] = controls
